@@ -280,7 +280,7 @@ def w5(ctx):
     c04.run(sub)
     n = 0
     for o in sub.obs:
-        if o.rule in ("R4a", "R4e", "R4f", "R4h"):
+        if o.rule in ("R4a", "R4e", "R4f", "R4h", "R4j"):
             n += 1
             parts = o.key.split("|")
             ctx.ob("W5", parts[1], f"{o.rule}:{parts[2]}", o.where, o.ok, o.detail)
